@@ -14,6 +14,7 @@ run.  Quiescence is a logical predicate (queues empty, consumers parked, no read
 from __future__ import annotations
 
 import errno
+import math
 import logging
 import os
 import queue as real_queue
@@ -56,15 +57,26 @@ def H() -> "Harness":
 
 # --------------------------------------------------------------------------- time
 
+TLOCK = real_threading.Lock()
+
+
 class TimeShim:
     def time(self):
         h = CUR
         if h is None:
             return real_time.time()
         h.counters["time.time"] += 1
-        # strictly increasing like a real clock (never two equal readings), whole seconds unchanged
-        h.tcalls += 1
-        return float(h.now) + min(h.tcalls * 2e-6, 0.45)
+        # strictly increasing like a real clock: never two equal readings, also from two threads at once and
+        # after any number of readings (the step shrinks to one float ulp once 0.45 s of epsilon are used up);
+        # whole seconds only change through advance()
+        with TLOCK:
+            h.tcalls += 1
+            t = float(h.now) + min(h.tcalls * 2e-6, 0.45)
+            last = h.tlast
+            if t <= last:
+                t = math.nextafter(last, math.inf)
+            h.tlast = t
+        return t
 
     def sleep(self, s):
         h = CUR
@@ -622,6 +634,7 @@ class Harness:
         self.activity = 0
         self.counters = _Counter()
         self.api_busy = False
+        self.tlast = 0.0
         self.queues: list[SQueue] = []
         self.busy: dict[int, real_threading.Thread] = {}
         self.parked_in_get = 0
@@ -845,6 +858,7 @@ class Harness:
         with HLOCK:
             self.now += dt
             self.tcalls = 0
+            self.tlast = 0.0
         self.log("advance", dt=dt)
 
     # ----- connections
